@@ -22,7 +22,7 @@ __CPROVER_ensures(!verif_thrown_other)
 __CPROVER_ensures(!verif_thrown || (georef->len == __CPROVER_old(georef->len) &&
    georef->p[verif_ghost_idx % VERIF_STRCAP] == __CPROVER_old(georef->p[verif_ghost_idx % VERIF_STRCAP])))
 /*@ clause post.nan_invalid src=property props=C13,C18 */
-__CPROVER_ensures(verif_thrown || !(isnan(lat) || isnan(lon)) ||
+__CPROVER_ensures(verif_thrown || !(isnan(lat) || isnan(lon) || isinf(lon)) ||   /* AngNormalize(+-inf) is NaN */
    (georef->len == 7 && georef->p[0] == 'I' && georef->p[1] == 'N' && georef->p[2] == 'V' && georef->p[3] == 'A' &&
     georef->p[4] == 'L' && georef->p[5] == 'I' && georef->p[6] == 'D'))
 /*@ clause post.lon_only_via_normalize src=property props=C18 */
